@@ -181,6 +181,105 @@ example :
     simp [s, h0', h1', demoTrace, PState.created, PState.run, PState.step, Dir.run, Dir.step,
       Dir.empty, upd, AtomSt.sync, AtomSt.options, AtomSt.visible, META, MANAGED]
 
+/-! ## the modelled protocol satisfies D0, D1, D2, D4 -/
+
+/-- shape of `save_metas`' storage calls: some syncs, `sync_directory; atomic_write(meta.json)`,
+some syncs. Decided on the extracted list; a `save_metas` without the sync right before the
+write makes this (and the theorem below) fail. -/
+theorem C01_save_metas_syncs_before_write :
+    ∃ a, a < 4 ∧ ∃ b, b < 4 ∧
+      Gen.SAVE_METAS_CALLS = List.replicate a 1 ++ [1, 2] ++ List.replicate b 1 := by
+  decide
+
+/-- **the modelled protocol satisfies D0, D1, D2 and D4** (`C01_protocol_disciplined_partial`):
+for every state, every batch of fresh segment / delete files written the way `SegmentSerializer`
+and `advance_deletes` do (registered, created, written, terminated), every `meta.json` payload
+whose references are those new files or files already visible and terminated, and every set of
+GC deletes that avoids the new payload's references, the operation sequence of `schedule_commit`
+— with `save_metas` in the extracted shape `sync_directory; atomic_write(meta.json)` — breaks
+none of D0, D1, D2, D4 at any step.
+Full statement (false for the code, see `C01_d3_counterexample`): … breaks no rule at all,
+i.e. also D3a/D3b. -/
+theorem C01_protocol_disciplined_partial (a b : Nat) (s : PState) (managed m : Payload)
+    (newFiles : List (Path × Nat)) (dels : List Path)
+    (hfresh : ∀ f ∈ newFiles, (s.dir.file f.1).ever = false ∧ (s.dir.file f.1).vis = false ∧ (s.dir.file f.1).dur = false)
+    (hnodup : (newFiles.map Prod.fst).Nodup)
+    (hrefs : ∀ p ∈ m.refs, p ∈ newFiles.map Prod.fst ∨ (s.dir.file p).ready = true)
+    (hmono : s.started ≤ m.commit)
+    (hdels : ∀ p ∈ dels, p ≠ META ∧ p ∉ m.refs) :
+    disciplinedBy (fun r => r != .D3a && r != .D3b) s
+      (commitOps (List.replicate a 1 ++ [1, 2] ++ List.replicate b 1) managed newFiles m dels) = true := by
+  let sel : Rule → Bool := fun r => r != .D3a && r != .D3b
+  obtain ⟨w1, w2, w3, w4, _⟩ := writeAll_effect sel managed newFiles s hfresh hnodup
+  have hops : commitOps (List.replicate a 1 ++ [1, 2] ++ List.replicate b 1) managed newFiles m dels =
+      writeAll managed newFiles ++ (syncs (a + 1) ++ ([Op.atomicWrite META m] ++ (syncs b ++
+        (dels.map Op.delete ++ ((if dels.isEmpty then [] else [.syncDir, .atomicWrite MANAGED managed]) ++ [.ack m.commit]))))) := by
+    unfold commitOps gcOps
+    rw [saveMetasOps_shape]
+    simp [writeAll, List.append_assoc]
+  rw [hops]
+  -- state after the files are written
+  let s1 := s.run (writeAll managed newFiles)
+  have hready : ∀ p ∈ m.refs, (s1.dir.file p).ready = true := by
+    intro p hp
+    rcases hrefs p hp with hin | hr
+    · obtain ⟨f, hf, e⟩ := List.mem_map.mp hin
+      rw [← e]
+      exact w2 f hf
+    · by_cases hin : p ∈ newFiles.map Prod.fst
+      · obtain ⟨f, hf, e⟩ := List.mem_map.mp hin
+        rw [← e]
+        exact w2 f hf
+      · show ((s.run (writeAll managed newFiles)).dir.file p).ready = true
+        rw [w3 p hin]; exact hr
+  -- after the syncs every referenced file is firm
+  let s2 := s1.run (syncs (a + 1))
+  have hfirm : refsAllFirm s2 m = true := by
+    unfold refsAllFirm
+    apply List.all_eq_true.mpr
+    intro p hp
+    exact syncs_succ_ready_firm s1 a p (hready p hp)
+  have hstarted : s2.started ≤ m.commit := by
+    show (s1.run (syncs (a + 1))).started ≤ _
+    rw [syncs_started]
+    show (s.run (writeAll managed newFiles)).started ≤ _
+    rw [w4]; exact hmono
+  have hvw : violations s2 (.atomicWrite META m) = [] := by
+    simp [violations, hfirm, hstarted]
+  let s3 := s2.step (.atomicWrite META m)
+  have hlast3 : (metaCands s3).getLast? = some m := by
+    show (metaCands (s2.step (.atomicWrite META m))).getLast? = some m
+    rw [metaCands_step_write]
+    simp
+  let s4 := s3.run (syncs b)
+  have hlast4 : (metaCands s4).getLast? = some m := by
+    show (metaCands (s3.run (syncs b))).getLast? = some m
+    rw [syncs_last]; exact hlast3
+  obtain ⟨d1, d2⟩ := deletes_ok s4 m dels hlast4 hdels
+  let s5 := s4.run (dels.map Op.delete)
+  -- the tail: optional sync + managed rewrite, then the acknowledgement
+  have htail : disciplinedBy sel s5
+      ((if dels.isEmpty then [] else [.syncDir, .atomicWrite MANAGED managed]) ++ [.ack m.commit]) = true := by
+    have hM : MANAGED ≠ META := by decide
+    have hack : ∀ st : PState, disciplinedBy sel st [.ack m.commit] = true := by
+      intro st
+      simp only [disciplinedBy, violations, Bool.and_true]
+      by_cases hc : (metaCands st).all (fun m' => decide (m.commit ≤ m'.commit)) = true
+      · simp [hc]
+      · simp [hc, sel]
+    by_cases he : dels.isEmpty = true
+    · simp only [he, if_true, List.nil_append]
+      exact hack _
+    · simp only [he, Bool.false_eq_true, if_false, List.cons_append, List.nil_append, disciplinedBy, violations,
+        hM, if_false, List.all_nil, Bool.true_and]
+      exact hack _
+  rw [disciplinedBy_append, disciplinedBy_append, disciplinedBy_append, disciplinedBy_append,
+    disciplinedBy_append]
+  simp only [Bool.and_eq_true]
+  refine ⟨w1, syncs_disciplined sel s1 (a + 1), ?_, syncs_disciplined sel _ b, d1, htail⟩
+  show disciplinedBy sel s2 [Op.atomicWrite META m] = true
+  simp [disciplinedBy, hvw]
+
 /-! ## the real `save_metas` does NOT satisfy D3 (finding S1) -/
 
 /-- state after one acknowledged commit `1` whose only file is path 2 -/
@@ -213,5 +312,111 @@ theorem C01_d3_counterexample :
      img ∈ crashImages s.dir ∧ recover img.toImage = none ∧
        allViolations afterCommit1 (commit2Unsynced true) 0 = [(7, [Rule.D3b]), (8, [Rule.D3a])]) := by
   decide
+
+/-- the theorem applies to `save_metas` as extracted from the source -/
+theorem C01_protocol_disciplined_extracted (s : PState) (managed m : Payload)
+    (newFiles : List (Path × Nat)) (dels : List Path)
+    (hfresh : ∀ f ∈ newFiles, (s.dir.file f.1).ever = false ∧ (s.dir.file f.1).vis = false ∧ (s.dir.file f.1).dur = false)
+    (hnodup : (newFiles.map Prod.fst).Nodup)
+    (hrefs : ∀ p ∈ m.refs, p ∈ newFiles.map Prod.fst ∨ (s.dir.file p).ready = true)
+    (hmono : s.started ≤ m.commit)
+    (hdels : ∀ p ∈ dels, p ≠ META ∧ p ∉ m.refs) :
+    disciplinedBy (fun r => r != .D3a && r != .D3b) s
+      (commitOps Gen.SAVE_METAS_CALLS managed newFiles m dels) = true := by
+  obtain ⟨a, _, b, _, h⟩ := C01_save_metas_syncs_before_write
+  rw [h]
+  exact C01_protocol_disciplined_partial a b s managed m newFiles dels hfresh hnodup hrefs hmono hdels
+
+/-- **the candidate repair is sufficient in the model**: with at least one `sync_directory` after
+the `atomic_write(meta.json)` in `save_metas` (`b + 1` of them), the whole `schedule_commit`
+sequence breaks no rule at all — D3a and D3b included — so `C01_recover_disciplined` applies to
+it without any side condition. -/
+theorem C01_protocol_disciplined_with_sync_after (a b : Nat) (s : PState) (managed m : Payload)
+    (newFiles : List (Path × Nat)) (dels : List Path)
+    (hfresh : ∀ f ∈ newFiles, (s.dir.file f.1).ever = false ∧ (s.dir.file f.1).vis = false ∧ (s.dir.file f.1).dur = false)
+    (hnodup : (newFiles.map Prod.fst).Nodup)
+    (hrefs : ∀ p ∈ m.refs, p ∈ newFiles.map Prod.fst ∨ (s.dir.file p).ready = true)
+    (hmono : s.started ≤ m.commit)
+    (hdels : ∀ p ∈ dels, p ≠ META ∧ p ∉ m.refs) :
+    Disciplined s
+      (commitOps (List.replicate a 1 ++ [1, 2] ++ List.replicate (b + 1) 1) managed newFiles m dels) = true := by
+  let sel : Rule → Bool := fun _ => true
+  obtain ⟨w1, w2, w3, w4, _⟩ := writeAll_effect sel managed newFiles s hfresh hnodup
+  have hops : commitOps (List.replicate a 1 ++ [1, 2] ++ List.replicate (b + 1) 1) managed newFiles m dels =
+      writeAll managed newFiles ++ (syncs (a + 1) ++ ([Op.atomicWrite META m] ++ (syncs (b + 1) ++
+        (dels.map Op.delete ++ ((if dels.isEmpty then [] else [.syncDir, .atomicWrite MANAGED managed]) ++ [.ack m.commit]))))) := by
+    unfold commitOps gcOps
+    rw [saveMetasOps_shape]
+    simp [writeAll, List.append_assoc]
+  unfold Disciplined
+  rw [hops]
+  let s1 := s.run (writeAll managed newFiles)
+  have hready : ∀ p ∈ m.refs, (s1.dir.file p).ready = true := by
+    intro p hp
+    by_cases hin : p ∈ newFiles.map Prod.fst
+    · obtain ⟨f, hf, e⟩ := List.mem_map.mp hin
+      rw [← e]
+      exact w2 f hf
+    · rcases hrefs p hp with h | hr
+      · exact absurd h hin
+      · show ((s.run (writeAll managed newFiles)).dir.file p).ready = true
+        rw [w3 p hin]; exact hr
+  let s2 := s1.run (syncs (a + 1))
+  have hfirm : refsAllFirm s2 m = true := by
+    unfold refsAllFirm
+    apply List.all_eq_true.mpr
+    intro p hp
+    exact syncs_succ_ready_firm s1 a p (hready p hp)
+  have hstarted : s2.started ≤ m.commit := by
+    show (s1.run (syncs (a + 1))).started ≤ _
+    rw [syncs_started]
+    show (s.run (writeAll managed newFiles)).started ≤ _
+    rw [w4]; exact hmono
+  have hvw : violations s2 (.atomicWrite META m) = [] := by
+    simp [violations, hfirm, hstarted]
+  let s3 := s2.step (.atomicWrite META m)
+  have hlast3 : (metaCands s3).getLast? = some m := by
+    show (metaCands (s2.step (.atomicWrite META m))).getLast? = some m
+    rw [metaCands_step_write]
+    simp
+  let s4 := s3.run (syncs (b + 1))
+  have hc4 : metaCands s4 = [m] := syncs_succ_cands s3 b m hlast3
+  obtain ⟨d1, d2⟩ := deletes_ok_synced s4 m dels hc4 hdels
+  let s5 := s4.run (dels.map Op.delete)
+  have htail : disciplinedBy sel s5
+      ((if dels.isEmpty then [] else [.syncDir, .atomicWrite MANAGED managed]) ++ [.ack m.commit]) = true := by
+    have hM : MANAGED ≠ META := by decide
+    have hack : ∀ st : PState, metaCands st = [m] → disciplinedBy sel st [.ack m.commit] = true := by
+      intro st hst
+      simp [disciplinedBy, violations, hst]
+    by_cases he : dels.isEmpty = true
+    · simp only [he, if_true, List.nil_append]
+      exact hack _ d2
+    · simp only [he, Bool.false_eq_true, if_false, List.cons_append, List.nil_append, disciplinedBy, violations,
+        hM, if_false, List.all_nil, Bool.true_and]
+      apply hack
+      have h1 : metaCands (s5.step .syncDir) = [m] := by
+        rw [metaCands_step_sync]
+        have : (metaCands s5).getLast? = some m := by rw [d2]; rfl
+        unfold metaCands at this
+        rw [cands_getLast] at this
+        rw [this]; rfl
+      rw [metaCands_step_other _ _ (by intro e; cases e) (by intro b' e; cases e)]
+      exact h1
+  rw [disciplinedBy_append, disciplinedBy_append, disciplinedBy_append, disciplinedBy_append,
+    disciplinedBy_append]
+  simp only [Bool.and_eq_true]
+  refine ⟨w1, syncs_disciplined sel s1 (a + 1), ?_, syncs_disciplined sel _ (b + 1), d1, htail⟩
+  show disciplinedBy sel s2 [Op.atomicWrite META m] = true
+  simp [disciplinedBy, hvw]
+
+/-- non-vacuity: commit 2 of the counterexample, with `save_metas` as extracted, satisfies
+D0, D1, D2, D4 and fails the full discipline; with one more sync it satisfies everything -/
+example : disciplinedBy (fun r => r != .D3a && r != .D3b) afterCommit1
+    (commitOps Gen.SAVE_METAS_CALLS ⟨0, 3, 12, [0, 2, 3]⟩ [(3, 7)] ⟨2, 4, 50, [3]⟩ [2]) = true := by decide
+example : Disciplined afterCommit1
+    (commitOps Gen.SAVE_METAS_CALLS ⟨0, 3, 12, [0, 2, 3]⟩ [(3, 7)] ⟨2, 4, 50, [3]⟩ [2]) = false := by decide
+example : Disciplined afterCommit1
+    (commitOps [1, 2, 1] ⟨0, 3, 12, [0, 2, 3]⟩ [(3, 7)] ⟨2, 4, 50, [3]⟩ [2]) = true := by decide
 
 end TantivyModel.C01
